@@ -332,11 +332,58 @@ func swapInGapsNs(seq []byte) []byte {
 
 // groupSamRecords yields blocks of sam records that correspond to the same query
 // sequence (to a channel)
+// newlineTerminated passes r through and adds a final newline if r's last byte is not one.
+// The sam reader takes a line only when it ends in a newline, so without this the last
+// alignment of a file whose last line is unterminated would be dropped silently
+type newlineTerminated struct {
+	r       io.Reader
+	last    byte
+	started bool
+	pending bool
+	eof     bool
+}
+
+func (n *newlineTerminated) Read(p []byte) (int, error) {
+	if len(p) == 0 {
+		return 0, nil
+	}
+	if n.pending {
+		p[0] = '\n'
+		n.pending = false
+		n.eof = true
+		return 1, nil
+	}
+	if n.eof {
+		return 0, io.EOF
+	}
+	k, err := n.r.Read(p)
+	if k > 0 {
+		n.last = p[k-1]
+		n.started = true
+	}
+	if err == io.EOF {
+		if n.started && n.last != '\n' {
+			if k < len(p) {
+				p[k] = '\n'
+				n.eof = true
+				return k + 1, nil
+			}
+			n.pending = true
+			return k, nil
+		}
+		n.eof = true
+		if k > 0 {
+			return k, nil
+		}
+	}
+	return k, err
+}
+
 func groupSamRecords(sam io.Reader, cHeader chan biogosam.Header, chnl chan samRecords, cdone chan bool, cerr chan error) {
 
 	var err error
 
-	s, err := biogosam.NewReader(sam)
+	s, err := biogosam.NewReader(&newlineTerminated{r: sam})
 	if err != nil {
 		// there is no reader (and no header) to carry on with, e.g. if the stream is empty
 		cerr <- err
